@@ -1,0 +1,13 @@
+//go:build verif
+
+package command
+
+// Contracts for govc (see /verif/DESIGN.md). Compiled only with -tags verif.
+
+//@ func Decode
+//@   property C16
+//@   tag decoder
+//@   alloc data
+//@   ensures [total] true
+//@   ensures [no-prefix-no-command] (len(data) == 0 || old(data[0]) != 206) ==> !result1 && result2 == nil && result == nil
+//@   ensures [command-flag] result1 ==> len(data) > 0 && old(data[0]) == 206
